@@ -31,6 +31,9 @@ type OverrideChannel[T any] interface {
 
 	// Update the latest value
 	WriteLast(value T)
+
+	// WriteIfEmpty sets the value only if no value is waiting to be received
+	WriteIfEmpty(value T)
 }
 
 type overrideChannel[T any] struct {
@@ -60,6 +63,17 @@ func (o *overrideChannel[T]) Receive(ctx context.Context) (t T, err error) {
 
 func (o *overrideChannel[T]) Ch() chan T {
 	return o.ch
+}
+
+func (o *overrideChannel[T]) WriteIfEmpty(value T) {
+	o.Lock()
+	defer o.Unlock()
+
+	select {
+	case o.ch <- value:
+	default:
+		// A value written by WriteLast is already waiting: it is at least as recent
+	}
 }
 
 func (o *overrideChannel[T]) WriteLast(value T) {
